@@ -397,9 +397,24 @@ def build(case, kind: str, *, auto_alias=False, backend: Backend | None = None, 
     return res
 
 
+ENGINE_PANICS = {"polars_optimizer_panic": 0}
+
+
 def export_polars(tbl):
     pdt, _, _ = _mods()
-    return tbl >> pdt.export(pdt.Polars())
+    try:
+        return tbl >> pdt.export(pdt.Polars())
+    except BaseException as ex:  # noqa: BLE001
+        # a panic inside the Polars optimizer is an engine bug by definition (DESIGN 4.15 g): if the same lazy plan
+        # collects without the optimizer, that result stands in
+        if type(ex).__name__ != "PanicException":
+            raise
+        try:
+            df = export_polars_noopt(tbl)
+        except BaseException:  # noqa: BLE001
+            raise ex from None
+        ENGINE_PANICS["polars_optimizer_panic"] += 1
+        return df
 
 
 def export_polars_noopt(tbl):
